@@ -549,3 +549,548 @@ Proof. split; [apply tc_expr_sound | apply tc_expr_complete]. Qed.
 
 Theorem tc_exprs_iff G E es tes : tc_exprs G E es = Some tes <-> has_types G E es tes.
 Proof. split; [apply tc_expr_sound | apply tc_expr_complete]. Qed.
+
+(* ---------------------------------------------------------------- statements *)
+
+Scheme stmt_mut := Induction for stmt Sort Prop
+  with block_mut := Induction for block Sort Prop
+  with clauses_mut := Induction for clauses Sort Prop.
+Combined Scheme stmt_block_clauses_ind from stmt_mut, block_mut, clauses_mut.
+
+Lemma nodup_names_spec xs : nodup_names xs = true <-> NoDupNames xs.
+Proof.
+  induction xs as [|x r IH]; simpl; split; intros H.
+  - constructor.
+  - reflexivity.
+  - apply andb_prop in H. destruct H as [H1 H2]. apply IH in H2.
+    destruct (N.eqb_spec x blank) as [B|B].
+    + subst. constructor. assumption.
+    + simpl in H1. apply ND_cons; [assumption| |assumption].
+      intros I. apply memN_spec in I. rewrite I in H1. discriminate.
+  - inv H.
+    + rewrite N.eqb_refl. simpl. apply IH. assumption.
+    + apply andb_true_intro. split; [|apply IH; assumption].
+      apply orb_true_intro. right. destruct (memN x r) eqn:M; [|reflexivity].
+      apply memN_spec in M. contradiction.
+Qed.
+
+Lemma in_head_spec E x : in_head E x = true <-> InHead E x.
+Proof.
+  unfold in_head, InHead. destruct (scope_get (head_scope E) x) as [e|]; split; intros H; eauto; try discriminate.
+  destruct H as [e H]. discriminate.
+Qed.
+
+Lemma in_head_false E x : in_head E x = false <-> ~ InHead E x.
+Proof.
+  split.
+  - intros H I. apply in_head_spec in I. congruence.
+  - intros H. destruct (in_head E x) eqn:I; [|reflexivity]. apply in_head_spec in I. contradiction.
+Qed.
+
+Lemma all_fresh_spec E xs :
+  all_fresh E xs = true <-> (forall x, In x xs -> x <> blank -> ~ InHead E x).
+Proof.
+  unfold all_fresh. rewrite forallb_forall. split.
+  - intros H x I B. specialize (H x I). apply orb_prop in H. destruct H as [H|H].
+    + apply N.eqb_eq in H. contradiction.
+    + apply in_head_false. destruct (in_head E x); [discriminate|reflexivity].
+  - intros H x I. destruct (N.eqb_spec x blank) as [B|B]; [reflexivity|]. simpl.
+    specialize (H x I B). apply in_head_false in H. rewrite H. reflexivity.
+Qed.
+
+Definition is_val (v : etype) : bool := match v with EVal _ _ => true | ETuple _ => false end.
+
+Lemma forallb_is_val_map ts : forallb is_val (map (fun t => EVal (VT t) None) ts) = true.
+Proof. induction ts; simpl; auto. Qed.
+
+Lemma forallb_is_val_spec l : forallb is_val l = true <-> Forall (fun te => exists v c, te = EVal v c) l.
+Proof.
+  induction l as [|a l IH]; simpl; split; intros H; auto.
+  - apply andb_prop in H. destruct H as [H1 H2]. constructor; [|apply IH; assumption].
+    destruct a; [eauto|discriminate].
+  - inv H. destruct H2 as [v [c ->]]. simpl. apply IH. assumption.
+Qed.
+
+Lemma tuple_or_values_spec tes n vs : tuple_or_values tes n = Some vs <-> Values tes n vs.
+Proof.
+  unfold tuple_or_values. fold is_val. split.
+  - intros H.
+    destruct (Nat.eqb (length (rhs_values tes)) n) eqn:L; [|discriminate]. apply Nat.eqb_eq in L.
+    destruct (forallb is_val (rhs_values tes)) eqn:F; [|discriminate]. inv H.
+    apply forallb_is_val_spec in F.
+    destruct tes as [|[v c|ts] [|b r]]; try (apply V_each; exact F).
+    simpl. rewrite map_length. apply V_call.
+  - intros H. inv H.
+    + simpl. rewrite map_length, Nat.eqb_refl, forallb_is_val_map. reflexivity.
+    + assert (R: rhs_values vs = vs).
+      { destruct vs as [|[v c|ts] [|b r]]; try reflexivity. inv H0. destruct H2 as [v [c H2]]. discriminate. }
+      rewrite R, Nat.eqb_refl. apply forallb_is_val_spec in H0. rewrite H0. reflexivity.
+Qed.
+
+Lemma Values_length tes n vs : Values tes n vs -> length vs = n.
+Proof. intros H. inv H; [apply map_length|reflexivity]. Qed.
+
+Lemma all_assign_spec vs ts : all_assign vs ts = true <-> Forall2 Assignable vs ts.
+Proof.
+  revert ts. induction vs as [|v vs IH]; intros [|t ts]; simpl; split; intros H;
+    try discriminate; try constructor; try (inv H; fail).
+  - apply andb_prop in H. destruct H. apply assign_to_spec. assumption.
+  - apply andb_prop in H. destruct H. apply IH. assumption.
+  - inv H. apply andb_true_intro. split; [apply assign_to_spec; assumption | apply IH; assumption].
+Qed.
+
+Lemma Forall2_const_map {A B} (P : A -> ty -> Prop) (vs : list A) (xs : list B) t :
+  length vs = length xs ->
+  (Forall2 P vs (map (fun _ => t) xs) <-> Forall (fun v => P v t) vs).
+Proof.
+  revert xs. induction vs as [|v vs IH]; intros [|x xs] L; simpl in *; try discriminate; split; intros H;
+    try constructor; try (inv H; assumption).
+  - inv H. apply (IH xs); [congruence|assumption].
+  - inv H. apply (IH xs); [congruence|assumption].
+Qed.
+
+Lemma defaults_of_spec vs ts : defaults_of vs = Some ts <-> Forall2 DefaultOf vs ts.
+Proof.
+  revert ts. induction vs as [|v vs IH]; intros ts; simpl; split; intros H.
+  - inv H. constructor.
+  - inv H. reflexivity.
+  - destruct (default_of v) as [t|] eqn:D; [|discriminate].
+    destruct (defaults_of vs) as [ts'|] eqn:Ds; [|discriminate]. inv H.
+    constructor; [apply default_of_spec; assumption | apply IH; reflexivity].
+  - inv H. apply default_of_spec in H2. rewrite H2.
+    apply IH in H4. rewrite H4. reflexivity.
+Qed.
+
+Lemma assign_targets_spec E xs vs : assign_targets E xs vs = true <-> AssignTargets E xs vs.
+Proof.
+  revert vs. induction xs as [|x xs IH]; intros [|v vs]; simpl; split; intros H;
+    try discriminate; try constructor; try (inv H; fail).
+  - apply andb_prop in H. destruct H as [H1 H2]. apply IH in H2.
+    destruct (N.eqb_spec x blank) as [B|B].
+    + subst. destruct (default_of v) as [t|] eqn:D; [|discriminate].
+      apply default_of_spec in D. eapply AT_blank; eauto.
+    + destruct (lookup E x) as [[t|?|? ?]|] eqn:L; try discriminate.
+      apply assign_to_spec in H1. eapply AT_var; eauto.
+  - inv H.
+    + rewrite N.eqb_refl.
+      match goal with D : DefaultOf _ _ |- _ => apply default_of_spec in D; rewrite D end.
+      simpl. apply IH. assumption.
+    + destruct (N.eqb_spec x blank) as [B|B]; [contradiction|].
+      match goal with L : lookup _ _ = _ |- _ => rewrite L end.
+      match goal with A : Assignable _ _ |- _ => apply assign_to_spec in A; rewrite A end.
+      simpl. apply IH. assumption.
+Qed.
+
+Lemma short_targets_spec E xs vs news : short_targets E xs vs = Some news <-> ShortTargets E xs vs news.
+Proof.
+  revert vs news. induction xs as [|x xs IH]; intros [|v vs] news; simpl; split; intros H;
+    try discriminate; try (inv H; fail).
+  - inv H. constructor.
+  - inv H. reflexivity.
+  - destruct (short_targets E xs vs) as [n0|] eqn:S; [|discriminate].
+    assert (S' : ShortTargets E xs vs n0) by (apply IH; assumption).
+    destruct (N.eqb_spec x blank) as [B|B].
+    + subst. destruct (default_of v) as [t|] eqn:D; [|discriminate]. inv H.
+      apply default_of_spec in D. eapply ST_blank; eauto.
+    + destruct (scope_get (head_scope E) x) as [[t|?|? ?]|] eqn:L; try discriminate.
+      * destruct (assign_to v t) eqn:A; [|discriminate]. inv H.
+        apply assign_to_spec in A. eapply ST_old; eauto.
+      * destruct (default_of v) as [t|] eqn:D; [|discriminate]. inv H.
+        apply default_of_spec in D. eapply ST_new; eauto.
+  - inv H;
+      match goal with S : ShortTargets _ _ _ _ |- _ => apply IH in S; rewrite S end.
+    + rewrite N.eqb_refl.
+      match goal with D : DefaultOf _ _ |- _ => apply default_of_spec in D; rewrite D end. reflexivity.
+    + destruct (N.eqb_spec x blank) as [B|B]; [contradiction|].
+      match goal with L : scope_get _ _ = _ |- _ => rewrite L end.
+      match goal with A : Assignable _ _ |- _ => apply assign_to_spec in A; rewrite A end. reflexivity.
+    + destruct (N.eqb_spec x blank) as [B|B]; [contradiction|].
+      match goal with L : scope_get _ _ = _ |- _ => rewrite L end.
+      match goal with D : DefaultOf _ _ |- _ => apply default_of_spec in D; rewrite D end. reflexivity.
+Qed.
+
+Lemma is_bool_cond_spec e : is_bool_cond e = true <-> BoolCond e.
+Proof.
+  unfold is_bool_cond, BoolCond. destruct e as [v c|ts]; split; intros H.
+  - apply bclass_eqb_spec in H. eauto.
+  - destruct H as [v' [c' [E K]]]. inv E. apply bclass_eqb_spec. assumption.
+  - discriminate.
+  - destruct H as [v' [c' [E K]]]. discriminate.
+Qed.
+
+Lemma cases_ok_spec tagv tes :
+  cases_ok tagv tes = true <-> Forall (fun te => exists res, Binary OEq tagv te res) tes.
+Proof.
+  induction tes as [|te r IH]; simpl; split; intros H; auto.
+  - apply andb_prop in H. destruct H as [H1 H2]. constructor; [|apply IH; assumption].
+    destruct (tc_binary OEq tagv te) as [res|] eqn:B; [|discriminate].
+    exists res. apply tc_binary_sound. assumption.
+  - inv H. destruct H2 as [res B]. apply tc_binary_complete in B. rewrite B. simpl. apply IH. assumption.
+Qed.
+
+Lemma decls_used_spec E s r :
+  forallb (fun x => memN x (fu_block (decl_stmt (scope_names (head_scope E)) s ++ scope_names (head_scope E)) r))
+          (var_decls (scope_names (head_scope E)) s) = true <-> DeclsUsed E s r.
+Proof.
+  unfold DeclsUsed. rewrite forallb_forall. split; intros H x I; apply memN_spec; apply H; assumption.
+Qed.
+
+Lemma some_new_spec E xs :
+  forallb (fun x => N.eqb x blank || in_head E x) xs = false <->
+  (exists x, In x xs /\ x <> blank /\ ~ InHead E x).
+Proof.
+  induction xs as [|x r IH]; simpl; split; intros H.
+  - discriminate.
+  - destruct H as [x [[] _]].
+  - apply andb_false_iff in H. destruct H as [H|H].
+    + apply orb_false_elim in H. destruct H as [H1 H2]. exists x. split; [auto|].
+      split; [apply N.eqb_neq; assumption | apply in_head_false; assumption].
+    + apply IH in H. destruct H as [y [I R]]. exists y. split; [right; assumption|assumption].
+  - destruct H as [y [[->|I] [B F]]].
+    + apply andb_false_iff. left. apply N.eqb_neq in B. apply in_head_false in F. rewrite B, F. reflexivity.
+    + apply andb_false_iff. right. apply IH. exists y. auto.
+Qed.
+
+Ltac sinv H := match type of H with Some ?a = Some ?b => let Q := fresh in assert (Q : a = b) by congruence; clear H; subst end.
+
+Lemma tc_stmt_sound G :
+  (forall s cx E E', tc_stmt G cx E s = Some E' -> stmt_ok G cx E s E') /\
+  (forall b cx E, tc_block G cx E b = true -> block_ok G cx E b) /\
+  (forall cs cx E tagv, tc_clauses G cx E tagv cs = true -> clauses_ok G cx E tagv cs).
+Proof.
+  apply stmt_block_clauses_ind.
+  - (* SVar *)
+    intros xs t es cx E E' H. cbn [tc_stmt] in H.
+    destruct (nodup_names xs && all_fresh E xs) eqn:NF; cbn [negb] in H; [|discriminate].
+    apply andb_prop in NF. destruct NF as [ND AF].
+    apply nodup_names_spec in ND. pose proof (proj1 (all_fresh_spec E xs) AF) as FR.
+    destruct xs as [|x xs']; [discriminate|].
+    assert (NE : x :: xs' <> []) by discriminate.
+    destruct es as [|e r].
+    + destruct t as [t|]; [|discriminate]. sinv H. apply S_VarZero; assumption.
+    + assert (NN : ECons e r <> ENone) by discriminate.
+      assert (H' : match tc_exprs G E (ECons e r) with
+                   | Some tes =>
+                     match tuple_or_values tes (length (x :: xs')) with
+                     | Some vs =>
+                       match t with
+                       | Some t0 => if all_assign vs (map (fun _ => t0) (x :: xs'))
+                                    then Some (declare_vars E (x :: xs') (map (fun _ => t0) (x :: xs'))) else None
+                       | None => match defaults_of vs with
+                                 | Some ts => Some (declare_vars E (x :: xs') ts)
+                                 | None => None
+                                 end
+                       end
+                     | None => None
+                     end
+                   | None => None
+                   end = Some E') by (destruct t; exact H).
+      clear H. rename H' into H.
+      destruct (tc_exprs G E (ECons e r)) as [tes|] eqn:TE; [|discriminate].
+      apply tc_exprs_iff in TE.
+      destruct (tuple_or_values tes (length (x :: xs'))) as [vs|] eqn:TV; [|discriminate].
+      apply tuple_or_values_spec in TV.
+      destruct t as [t|].
+      * destruct (all_assign vs (map (fun _ => t) (x :: xs'))) eqn:AA; [|discriminate]. sinv H.
+        apply all_assign_spec in AA. apply Forall2_const_map in AA; [|eapply Values_length; eassumption].
+        eapply S_VarTyped; eassumption.
+      * destruct (defaults_of vs) as [ts|] eqn:DF; [|discriminate]. sinv H.
+        apply defaults_of_spec in DF. eapply S_VarInfer; eassumption.
+  - (* SConst *)
+    intros x t e cx E E' H. cbn [tc_stmt] in H.
+    destruct (negb (N.eqb x blank) && in_head E x) eqn:F; [discriminate|].
+    assert (FR : x <> blank -> ~ InHead E x).
+    { intros B. apply in_head_false. destruct (N.eqb_spec x blank); [contradiction|]. exact F. }
+    destruct (tc_expr G E e) as [[v [c|]|?]|] eqn:TE; try discriminate. apply tc_expr_iff in TE.
+    destruct t as [t|].
+    + destruct v as [t'|k].
+      * destruct (ty_eqb t' t) eqn:Q; [|discriminate]. apply ty_eqb_spec in Q. subst. sinv H.
+        apply S_ConstTyped; assumption.
+      * destruct (conv_untyped k (Some c) t) as [r|] eqn:CU; [|discriminate].
+        apply conv_untyped_spec in CU. destruct CU as [CU ->]. sinv H. eapply S_ConstConv; eauto.
+    + sinv H. apply S_ConstInfer; assumption.
+  - (* SShort *)
+    intros xs es cx E E' H. cbn [tc_stmt] in H.
+    destruct (nodup_names xs) eqn:ND; cbn [negb] in H; [|discriminate]. apply nodup_names_spec in ND.
+    destruct (forallb (fun x => N.eqb x blank || in_head E x) xs) eqn:NN; [discriminate|].
+    apply some_new_spec in NN.
+    destruct (tc_exprs G E es) as [tes|] eqn:TE; [|discriminate]. apply tc_exprs_iff in TE.
+    destruct (tuple_or_values tes (length xs)) as [vs|] eqn:TV; [|discriminate]. apply tuple_or_values_spec in TV.
+    destruct (short_targets E xs vs) as [news|] eqn:ST; [|discriminate]. apply short_targets_spec in ST.
+    sinv H. eapply S_Short; eassumption.
+  - (* SAssign *)
+    intros xs es cx E E' H. cbn [tc_stmt] in H.
+    destruct xs as [|x xs']; [discriminate|].
+    destruct (tc_exprs G E es) as [tes|] eqn:TE; [|discriminate]. apply tc_exprs_iff in TE.
+    destruct (tuple_or_values tes (length (x :: xs'))) as [vs|] eqn:TV; [|discriminate]. apply tuple_or_values_spec in TV.
+    destruct (assign_targets E (x :: xs') vs) eqn:AT; [|discriminate]. apply assign_targets_spec in AT.
+    sinv H. eapply S_Assign; try eassumption. discriminate.
+  - (* SOpAssign *)
+    intros x o e cx E E' H. cbn [tc_stmt] in H.
+    destruct (negb (is_arith o) || N.eqb x blank) eqn:F; [discriminate|].
+    apply orb_false_elim in F. destruct F as [F1 F2]. apply N.eqb_neq in F2.
+    unfold is_arith in F1.
+    destruct (is_comparison o) eqn:C; [discriminate|]. destruct (is_logical o) eqn:L; [discriminate|].
+    destruct (lookup E x) as [[t|?|? ?]|] eqn:LK; try discriminate.
+    destruct (tc_expr G E e) as [te|] eqn:TE; [|discriminate]. apply tc_expr_iff in TE.
+    destruct (tc_binary o (EVal (VT t) None) te) as [[[t'|?] c'|?]|] eqn:B; try discriminate.
+    destruct (ty_eqb t' t) eqn:Q; [|discriminate]. apply ty_eqb_spec in Q. subst.
+    apply tc_binary_sound in B. sinv H. eapply S_OpAssign; eassumption.
+  - (* SIncDec *)
+    intros x cx E E' H. cbn [tc_stmt] in H.
+    destruct (N.eqb_spec x blank) as [B|B]; [discriminate|].
+    destruct (lookup E x) as [[t|?|? ?]|] eqn:LK; try discriminate.
+    destruct (is_numeric (class_of (under t))) eqn:N; [|discriminate]. apply is_numeric_spec in N.
+    sinv H. eapply S_IncDec; eassumption.
+  - (* SExpr *)
+    intros e cx E E' H. cbn [tc_stmt] in H.
+    destruct (is_call e) eqn:C; [|discriminate].
+    destruct (tc_expr G E e) as [te|] eqn:TE; [|discriminate]. apply tc_expr_iff in TE.
+    sinv H. eapply S_Expr; eassumption.
+  - (* SIf *)
+    intros c th IHth el IHel cx E E' H. cbn [tc_stmt] in H.
+    destruct (tc_expr G E c) as [tcnd|] eqn:TE; [|discriminate]. apply tc_expr_iff in TE.
+    destruct (is_bool_cond tcnd && tc_block G cx ([] :: E) th && tc_block G cx ([] :: E) el) eqn:F; [|discriminate].
+    apply andb_prop in F. destruct F as [F F3]. apply andb_prop in F. destruct F as [F1 F2].
+    apply is_bool_cond_spec in F1. sinv H. eapply S_If; eauto.
+  - (* SFor *)
+    intros c b IHb cx E E' H. cbn [tc_stmt] in H.
+    destruct (tc_expr G E c) as [tcnd|] eqn:TE; [|discriminate]. apply tc_expr_iff in TE.
+    destruct (is_bool_cond tcnd && tc_block G (in_loop cx) ([] :: E) b) eqn:F; [|discriminate].
+    apply andb_prop in F. destruct F as [F1 F2].
+    apply is_bool_cond_spec in F1. sinv H. eapply S_For; eauto.
+  - (* SLoop *)
+    intros b IHb cx E E' H. cbn [tc_stmt] in H.
+    destruct (tc_block G (in_loop cx) ([] :: E) b) eqn:F; [|discriminate].
+    sinv H. apply S_Loop; auto.
+  - (* SSwitch *)
+    intros tag cs IHcs d IHd cx E E' H. cbn [tc_stmt] in H.
+    destruct (tc_expr G E tag) as [ttag|] eqn:TE; [|discriminate]. apply tc_expr_iff in TE.
+    destruct (default_of ttag) as [t|] eqn:D; [|discriminate]. apply default_of_spec in D.
+    destruct (tc_clauses G (in_switch cx) E (EVal (VT t) None) cs && tc_block G (in_switch cx) ([] :: E) d) eqn:F; [|discriminate].
+    apply andb_prop in F. destruct F as [F1 F2].
+    sinv H. eapply S_Switch; eauto.
+  - (* SReturn *)
+    intros es cx E E' H. cbn [tc_stmt] in H.
+    destruct (tc_exprs G E es) as [tes|] eqn:TE; [|discriminate]. apply tc_exprs_iff in TE.
+    destruct (tuple_or_values tes (length (cx_results cx))) as [vs|] eqn:TV; [|discriminate]. apply tuple_or_values_spec in TV.
+    destruct (all_assign vs (cx_results cx)) eqn:AA; [|discriminate]. apply all_assign_spec in AA.
+    sinv H. eapply S_Return; eassumption.
+  - (* SBreak *)
+    intros cx E E' H. cbn [tc_stmt] in H. destruct (cx_brk cx) eqn:B; [|discriminate]. sinv H. apply S_Break; assumption.
+  - (* SContinue *)
+    intros cx E E' H. cbn [tc_stmt] in H. destruct (cx_loop cx) eqn:B; [|discriminate]. sinv H. apply S_Continue; assumption.
+  - (* SBlock *)
+    intros b IHb cx E E' H. cbn [tc_stmt] in H.
+    destruct (tc_block G cx ([] :: E) b) eqn:F; [|discriminate]. sinv H. apply S_Block; auto.
+  - (* BNil *)
+    intros. constructor.
+  - (* BCons *)
+    intros s IHs r IHr cx E H. cbn [tc_block] in H.
+    destruct (tc_stmt G cx E s) as [E'|] eqn:TS; [|discriminate].
+    apply andb_prop in H. destruct H as [H1 H2]. apply decls_used_spec in H1.
+    eapply Bk_cons; eauto.
+  - (* CNil *)
+    intros. constructor.
+  - (* CCons *)
+    intros es b IHb r IHr cx E tagv H. cbn [tc_clauses] in H.
+    destruct (tc_exprs G E es) as [tes|] eqn:TE; [|discriminate]. apply tc_exprs_iff in TE.
+    apply andb_prop in H. destruct H as [H H3]. apply andb_prop in H. destruct H as [H1 H2].
+    apply cases_ok_spec in H1. eapply Cl_cons; eauto.
+Qed.
+
+Lemma is_arith_true o : is_comparison o = false -> is_logical o = false -> is_arith o = true.
+Proof. unfold is_arith. intros -> ->. reflexivity. Qed.
+
+Ltac rw_nodup := match goal with ND : NoDupNames _ |- _ => apply nodup_names_spec in ND; rewrite ND; clear ND end.
+Ltac rw_fresh := match goal with FR : forall x, In x _ -> x <> blank -> ~ InHead _ x |- _ =>
+                                 apply all_fresh_spec in FR; rewrite FR; clear FR end.
+Ltac rw_exprs := match goal with T : has_types _ _ _ _ |- _ => apply tc_exprs_iff in T; rewrite T; clear T end.
+Ltac rw_expr := match goal with T : has_type _ _ _ _ |- _ => apply tc_expr_iff in T; rewrite T; clear T end.
+Ltac rw_values := match goal with V : Values _ _ _ |- _ => apply tuple_or_values_spec in V; rewrite V; clear V end.
+Ltac rw_lookup := match goal with L : lookup _ _ = _ |- _ => rewrite L; clear L end.
+Ltac rw_notblank := match goal with B : ?x <> blank |- _ =>
+                      let Q := fresh in assert (Q : N.eqb x blank = false) by (apply N.eqb_neq; exact B); rewrite Q; clear Q end.
+
+Lemma tc_stmt_complete G :
+  (forall s cx E E', stmt_ok G cx E s E' -> tc_stmt G cx E s = Some E') /\
+  (forall b cx E, block_ok G cx E b -> tc_block G cx E b = true) /\
+  (forall cs cx E tagv, clauses_ok G cx E tagv cs -> tc_clauses G cx E tagv cs = true).
+Proof.
+  apply stmt_block_clauses_ind.
+  - (* SVar *)
+    intros xs t es cx E E' H.
+    inv H; (destruct xs as [|x xs']; [contradiction|]).
+    + cbn [tc_stmt]. rw_nodup. rw_fresh. reflexivity.
+    + destruct es as [|e r]; [contradiction|].
+      cbn [tc_stmt]. rw_nodup. rw_fresh. cbn [andb negb]. rw_exprs.
+      match goal with V : Values _ _ _ |- _ => pose proof (Values_length _ _ _ V) as LEN end.
+      rw_values.
+      match goal with A : Forall _ vs |- _ =>
+        apply (Forall2_const_map Assignable vs (x :: xs') t0 LEN) in A; apply all_assign_spec in A; rewrite A end.
+      reflexivity.
+    + destruct es as [|e r]; [contradiction|].
+      cbn [tc_stmt]. rw_nodup. rw_fresh. cbn [andb negb]. rw_exprs. rw_values.
+      match goal with D : Forall2 DefaultOf _ _ |- _ => apply defaults_of_spec in D; rewrite D end.
+      reflexivity.
+  - (* SConst *)
+    intros x t e cx E E' H. cbn [tc_stmt].
+    assert (FR : forall P : Prop, (x <> blank -> ~ InHead E x) -> negb (N.eqb x blank) && in_head E x = false).
+    { intros _ F. destruct (N.eqb_spec x blank) as [B|B]; [reflexivity|]. apply in_head_false. auto. }
+    inv H; (rewrite (FR True); [|assumption]); rw_expr.
+    + reflexivity.
+    + rewrite ty_eqb_refl. reflexivity.
+    + match goal with C : ConvUntyped _ _ _ |- _ =>
+        assert (CU : conv_untyped k (Some c) t0 = Some (EVal (VT t0) (Some c))) by (apply conv_untyped_spec; auto) end.
+      rewrite CU. reflexivity.
+  - (* SShort *)
+    intros xs es cx E E' H. cbn [tc_stmt]. inv H. rw_nodup. cbn [negb].
+    match goal with N : exists x, _ |- _ => apply some_new_spec in N; rewrite N end.
+    rw_exprs. rw_values.
+    match goal with S : ShortTargets _ _ _ _ |- _ => apply short_targets_spec in S; rewrite S end.
+    reflexivity.
+  - (* SAssign *)
+    intros xs es cx E E' H. inv H. destruct xs as [|x xs']; [contradiction|]. cbn [tc_stmt].
+    rw_exprs. rw_values.
+    match goal with A : AssignTargets _ _ _ |- _ => apply assign_targets_spec in A; rewrite A end.
+    reflexivity.
+  - (* SOpAssign *)
+    intros x o e cx E E' H. cbn [tc_stmt]. inv H.
+    rewrite is_arith_true by assumption. rw_notblank. cbn [negb orb]. rw_lookup. rw_expr.
+    match goal with B : Binary _ _ _ _ |- _ => apply tc_binary_complete in B; rewrite B end.
+    rewrite ty_eqb_refl. reflexivity.
+  - (* SIncDec *)
+    intros x cx E E' H. cbn [tc_stmt]. inv H. rw_notblank. rw_lookup.
+    match goal with N : Numeric _ |- _ => apply is_numeric_spec in N; rewrite N end. reflexivity.
+  - (* SExpr *)
+    intros e cx E E' H. cbn [tc_stmt]. inv H.
+    match goal with C : is_call _ = true |- _ => rewrite C end. rw_expr. reflexivity.
+  - (* SIf *)
+    intros c th IHth el IHel cx E E' H. cbn [tc_stmt]. inv H. rw_expr.
+    match goal with B : BoolCond _ |- _ => apply is_bool_cond_spec in B; rewrite B end.
+    rewrite IHth by assumption. rewrite IHel by assumption. reflexivity.
+  - (* SFor *)
+    intros c b IHb cx E E' H. cbn [tc_stmt]. inv H. rw_expr.
+    match goal with B : BoolCond _ |- _ => apply is_bool_cond_spec in B; rewrite B end.
+    rewrite IHb by assumption. reflexivity.
+  - (* SLoop *)
+    intros b IHb cx E E' H. cbn [tc_stmt]. inv H. rewrite IHb by assumption. reflexivity.
+  - (* SSwitch *)
+    intros tag cs IHcs d IHd cx E E' H. cbn [tc_stmt]. inv H. rw_expr.
+    match goal with D : DefaultOf _ _ |- _ => apply default_of_spec in D; rewrite D end.
+    rewrite IHcs by assumption. rewrite IHd by assumption. reflexivity.
+  - (* SReturn *)
+    intros es cx E E' H. cbn [tc_stmt]. inv H. rw_exprs. rw_values.
+    match goal with A : Forall2 Assignable _ _ |- _ => apply all_assign_spec in A; rewrite A end.
+    reflexivity.
+  - (* SBreak *)
+    intros cx E E' H. cbn [tc_stmt]. inv H. match goal with B : cx_brk _ = true |- _ => rewrite B end. reflexivity.
+  - (* SContinue *)
+    intros cx E E' H. cbn [tc_stmt]. inv H. match goal with B : cx_loop _ = true |- _ => rewrite B end. reflexivity.
+  - (* SBlock *)
+    intros b IHb cx E E' H. cbn [tc_stmt]. inv H. rewrite IHb by assumption. reflexivity.
+  - (* BNil *)
+    intros. reflexivity.
+  - (* BCons *)
+    intros s IHs r IHr cx E H. cbn [tc_block]. inv H.
+    match goal with S : stmt_ok _ _ _ _ _ |- _ => rewrite (IHs _ _ _ S) end.
+    match goal with D : DeclsUsed _ _ _ |- _ => apply decls_used_spec in D; rewrite D end.
+    apply IHr. assumption.
+  - (* CNil *)
+    intros. reflexivity.
+  - (* CCons *)
+    intros es b IHb r IHr cx E tagv H. cbn [tc_clauses]. inv H. rw_exprs.
+    match goal with C : Forall _ tes |- _ => apply cases_ok_spec in C; rewrite C end.
+    rewrite IHb by assumption. rewrite IHr by assumption. reflexivity.
+Qed.
+
+Theorem tc_stmt_iff G cx E s E' : tc_stmt G cx E s = Some E' <-> stmt_ok G cx E s E'.
+Proof. split; [apply tc_stmt_sound | apply tc_stmt_complete]. Qed.
+
+Theorem tc_block_iff G cx E b : tc_block G cx E b = true <-> block_ok G cx E b.
+Proof. split; [apply tc_stmt_sound | apply tc_stmt_complete]. Qed.
+
+(* ------------------------------------------------------------------ programs *)
+
+Lemma tc_globals_iff G gs : forall E E', tc_globals G E gs = Some E' <-> globals_ok G E gs E'.
+Proof.
+  induction gs as [|g r IH]; intros E E'; cbn [tc_globals]; split; intros H.
+  - inv H. constructor.
+  - inv H. reflexivity.
+  - destruct g as [x t e|x t e]; destruct (N.eqb_spec x blank) as [B|B]; try discriminate.
+    + destruct (tc_stmt G {| cx_results := []; cx_loop := false; cx_brk := false |} E (SConst x t e)) as [E1|] eqn:S; [|discriminate].
+      apply tc_stmt_iff in S. apply IH in H. eapply GO_const; eauto.
+    + destruct (tc_stmt G {| cx_results := []; cx_loop := false; cx_brk := false |} E (SVar [x] t (ECons e ENone))) as [E1|] eqn:S; [|discriminate].
+      apply tc_stmt_iff in S. apply IH in H. eapply GO_var; eauto.
+  - inv H; (destruct (N.eqb_spec x blank) as [B|B]; [contradiction|]).
+    + match goal with S : stmt_ok _ _ _ _ _ |- _ => apply tc_stmt_iff in S; unfold top_ctx in S; rewrite S end.
+      apply IH. assumption.
+    + match goal with S : stmt_ok _ _ _ _ _ |- _ => apply tc_stmt_iff in S; unfold top_ctx in S; rewrite S end.
+      apply IH. assumption.
+Qed.
+
+Lemma declare_funcs_iff fs : forall E E', declare_funcs E fs = Some E' <-> funcs_declared E fs E'.
+Proof.
+  induction fs as [|f r IH]; intros E E'; simpl; split; intros H.
+  - inv H. constructor.
+  - inv H. reflexivity.
+  - destruct (N.eqb (fn_name f) blank || in_head E (fn_name f)) eqn:F; [discriminate|].
+    apply orb_false_elim in F. destruct F as [F1 F2].
+    apply N.eqb_neq in F1. apply in_head_false in F2. apply IH in H. constructor; assumption.
+  - inv H.
+    match goal with B : fn_name f <> blank |- _ => apply N.eqb_neq in B; rewrite B end.
+    match goal with I : ~ InHead _ _ |- _ => apply in_head_false in I; rewrite I end.
+    simpl. apply IH. assumption.
+Qed.
+
+Lemma tc_func_iff G E f : tc_func G E f = true <-> func_ok G E f.
+Proof.
+  unfold tc_func, func_ok. split.
+  - intros H. apply andb_prop in H. destruct H as [H1 H]. apply andb_prop in H. destruct H as [H2 H3].
+    split; [apply nodup_names_spec; assumption|]. split; [apply tc_block_iff; assumption|].
+    intros NE. destruct (fn_results f); [contradiction|assumption].
+  - intros [H1 [H2 H3]]. apply nodup_names_spec in H1. apply tc_block_iff in H2. rewrite H1, H2. simpl.
+    destruct (fn_results f); [reflexivity|]. apply H3. discriminate.
+Qed.
+
+Lemma nodupN_spec l : nodupN l = true <-> NoDup l.
+Proof.
+  induction l as [|x r IH]; simpl; split; intros H.
+  - constructor.
+  - reflexivity.
+  - apply andb_prop in H. destruct H as [H1 H2]. constructor; [|apply IH; assumption].
+    intros I. apply memN_spec in I. rewrite I in H1. discriminate.
+  - inv H. apply andb_true_intro. split; [|apply IH; assumption].
+    destruct (memN x r) eqn:M; [|reflexivity]. apply memN_spec in M. contradiction.
+Qed.
+
+Theorem tc_sound p : tc p = true -> prog_ok p.
+Proof.
+  unfold tc, prog_ok. intros H.
+  apply andb_prop in H. destruct H as [H H4]. apply andb_prop in H. destruct H as [H H3].
+  apply andb_prop in H. destruct H as [H1 H2].
+  rewrite forallb_forall in H1. apply nodupN_spec in H2. rewrite forallb_forall in H3.
+  split; [assumption|]. split; [assumption|].
+  split; [intros q I; apply memN_spec; apply H3; assumption|].
+  destruct (tc_globals (p_imports p) [[]] (p_globals p)) as [E1|] eqn:TG; [|discriminate].
+  destruct (declare_funcs E1 (p_funcs p)) as [E2|] eqn:DF; [|discriminate].
+  apply andb_prop in H4. destruct H4 as [H5 H6]. rewrite forallb_forall in H5.
+  exists E1, E2. split; [apply tc_globals_iff; assumption|]. split; [apply declare_funcs_iff; assumption|].
+  split; [intros f I; apply tc_func_iff; apply H5; assumption | apply tc_func_iff; exact H6].
+Qed.
+
+Theorem tc_complete p : prog_ok p -> tc p = true.
+Proof.
+  unfold tc, prog_ok. intros [H1 [H2 [H3 [E1 [E2 [HG [HD [HF HM]]]]]]]].
+  apply andb_true_intro. split; [apply andb_true_intro; split; [apply andb_true_intro; split|]|].
+  - apply forallb_forall. assumption.
+  - apply nodupN_spec. assumption.
+  - apply forallb_forall. intros q I. apply memN_spec. apply H3. assumption.
+  - apply tc_globals_iff in HG. rewrite HG. apply declare_funcs_iff in HD. rewrite HD.
+    apply andb_true_intro. split.
+    + apply forallb_forall. intros f I. apply tc_func_iff. apply HF. assumption.
+    + apply tc_func_iff in HM. exact HM.
+Qed.
+
+Theorem tc_iff p : tc p = true <-> prog_ok p.
+Proof. split; [apply tc_sound | apply tc_complete]. Qed.
